@@ -22,11 +22,11 @@ impl Driver for HubAuth {
         let fee = match rng.next() % 4 { 0 => Value::Null, 1 => json!((E18 + 1 + rng.below(E18)).to_string()), 2 => json!(E18.to_string()), _ => json!(rng.below(E18).to_string()) };
         let thr = match rng.next() % 3 { 0 => Value::Null, 1 => json!((E18 + rng.below(E18)).to_string()), _ => json!(rng.below(E18 + 1).to_string()) };
         json!({"msg": MSGS[(rng.next() % MSGS.len() as u64) as usize], "sender": SENDERS[(rng.next() % SENDERS.len() as u64) as usize], "paused": rng.next() % 3 == 0,
-               "legacy": rng.next() % 4 == 0, "amount": (1 + rng.amount(100_000)).to_string(), "fee": fee, "thr": thr, "stored_fee": rng.below(E18 + 1).to_string()})
+               "legacy": rng.next() % 4 == 0, "amount": (1 + rng.amount(100_000)).to_string(), "fee": fee, "thr": thr, "stored_fee": rng.below(E18 + 1).to_string(), "stored_thr": (if rng.next() % 2 == 0 { E18 } else { rng.below(E18 + 1) }).to_string()})
     }
     fn run(&self, input: &Value) -> Outcome {
         let base = json!({"supply_b": "100000", "supply_s": "100000", "req_b": "10", "req_s": "10", "backing_b": "100010", "backing_s": "100010", "delegations": ["100010", "100010"], "balance": "0", "prev_balance": "0",
-                          "fee": input["stored_fee"], "threshold": "1000000000000000000", "epoch_period": "30"});
+                          "fee": input["stored_fee"], "threshold": if input["stored_thr"].is_null() { json!("1000000000000000000") } else { input["stored_thr"].clone() }, "epoch_period": "30"});
         let mut deps = setup(&base);
         let paused = input["paused"].as_bool().unwrap_or(false);
         let mut p: Parameters = PARAMETERS.load(&deps.storage).unwrap(); p.paused = Some(paused); PARAMETERS.save(&mut deps.storage, &p).unwrap();
@@ -91,7 +91,11 @@ impl Driver for HubAuth {
             if kind == "update_params" {
                 let want_fee = dec(&input["fee"]).unwrap_or(p.peg_recovery_fee);
                 c.insert("ha#C20.fee_above_one_rejected".to_string(), want_fee <= Decimal::one());
-                c.insert("ha#C20.omitted_fields_keep_their_value".to_string(), p1.peg_recovery_fee == want_fee && p1.unbonding_period == p.unbonding_period && p1.reward_denom == p.reward_denom && p1.epoch_period == 77);
+                let want_thr = dec(&input["thr"]).map(|t| t.min(Decimal::one())).unwrap_or(p.er_threshold);
+                c.insert("ha#C20.omitted_fields_keep_their_value".to_string(), p1.er_threshold == want_thr && p1.peg_recovery_fee == want_fee && p1.unbonding_period == p.unbonding_period && p1.reward_denom == p.reward_denom && p1.epoch_period == 77);
+            } else if kind == "update_params_unpause" {
+                c.insert("ha#C20.omitted_fields_keep_their_value".to_string(), p1.er_threshold == p.er_threshold && p1.peg_recovery_fee == p.peg_recovery_fee && p1.epoch_period == p.epoch_period
+                    && p1.unbonding_period == p.unbonding_period && p1.reward_denom == p.reward_denom && p1.underlying_coin_denom == p.underlying_coin_denom);
             } else if !kind.starts_with("update_params") && kind != "migrate" {
                 c.insert("ha#C20.only_update_params_changes_parameters".to_string(), p1 == p);
             }
